@@ -5,10 +5,10 @@ EXTENDS MC_TpePols, Json
 
 VARIABLES coord, c
 \* a spread of environments: every mgr/owner shape, with and without optional data
-EnvChoices == { <<TRUE, "u2", TRUE, TRUE, TRUE, TRUE, "u1", 3, "u1">>, <<FALSE, "none", FALSE, FALSE, FALSE, FALSE, "u2", 2, "u1">>,
-                <<TRUE, "u3", FALSE, TRUE, FALSE, FALSE, "u1", 5, "u1">>, <<FALSE, "u2", TRUE, FALSE, TRUE, TRUE, "u2", 1, "u2">>,
-                <<TRUE, "u2", FALSE, FALSE, TRUE, FALSE, "u2", 4, "u1">>, <<FALSE, "u3", TRUE, TRUE, FALSE, TRUE, "u1", 1, "u2">>,
-                <<TRUE, "none", TRUE, FALSE, FALSE, TRUE, "u2", 5, "u2">>, <<FALSE, "u2", FALSE, TRUE, TRUE, FALSE, "u1", 3, "u1">> }
+EnvChoices == { <<TRUE, "u2", TRUE, TRUE, "g", TRUE, "u1", 3, "u1">>, <<FALSE, "none", FALSE, FALSE, "no", FALSE, "u2", 2, "u1">>,
+                <<TRUE, "u3", FALSE, TRUE, "no", FALSE, "u1", 5, "u1">>, <<FALSE, "u2", TRUE, FALSE, "g", TRUE, "u2", 1, "u2">>,
+                <<TRUE, "u2", FALSE, FALSE, "g", FALSE, "u2", 4, "u1">>, <<FALSE, "u3", TRUE, TRUE, "no", TRUE, "u1", 1, "u2">>,
+                <<TRUE, "none", TRUE, FALSE, "no", TRUE, "u2", 5, "u2">>, <<FALSE, "u2", FALSE, TRUE, "g", FALSE, "u1", 3, "u1">> }
 Coords == {<<p, m>> : p \in EnvChoices, m \in 0..2}
 CasesOf(k) == {[pols |-> ps, params |-> k[1], loader |-> k[2], maxBudget |-> 9] : ps \in PolSets}
 Init == coord \in Coords /\ c = <<>>
